@@ -158,11 +158,16 @@ def obligation_text(ob):
         core_txt = s2.to_smt2()
     ob.core_txt = core_txt
     # a second query asking for a small counter-model (used only after the first one was sat)
-    s.push()
-    for z in small:
-        s.add(z)
-    small_txt = s.to_smt2() if small else None
-    s.pop()
+    small_txt = None
+    if small:
+        # (a second solver object rather than push/pop: push internalises the assertions, which can exhaust memory on
+        # obligations with deeply nested quantifiers; printing needs no internalisation)
+        s3 = z3.Solver()
+        for a in s.assertions():
+            s3.add(a)
+        for z in small:
+            s3.add(z)
+        small_txt = s3.to_smt2()
     return txt, names, small_txt
 
 
